@@ -19,7 +19,7 @@ STD_TRAITS_VIA_GENERICS = {
 
 
 class Fn:
-    __slots__ = ("raw", "db", "path", "dp", "kind", "file", "blocks", "locals", "argc", "_preds", "_dom", "_defs")
+    __slots__ = ("raw", "db", "path", "dp", "kind", "file", "blocks", "locals", "argc", "_preds", "_dom", "_defs", "_pdom")
 
     def __init__(self, raw, db):
         self.raw = raw
@@ -35,6 +35,7 @@ class Fn:
         self._preds = None
         self._dom = None
         self._defs = None
+        self._pdom = None
 
     # ---- basic accessors
     @property
@@ -147,6 +148,50 @@ class Fn:
                     changed = True
         self._dom = dom
         return dom
+
+    def postdominators(self):
+        """pdom[b] = set of blocks post-dominating b over normal edges; blocks without normal successors (return, diverging
+        calls, unreachable) all flow to one virtual exit (-1)"""
+        if getattr(self, "_pdom", None) is not None:
+            return self._pdom
+        reach = sorted(self.reachable_blocks(0))
+        succ = {b: (self.succs(b) or [-1]) for b in reach}
+        nodes = reach + [-1]
+        pdom = {b: set(nodes) for b in nodes}
+        pdom[-1] = {-1}
+        changed = True
+        while changed:
+            changed = False
+            for b in reversed(reach):
+                new = set.intersection(*[pdom[x] for x in succ[b]]) | {b}
+                if new != pdom[b]:
+                    pdom[b] = new
+                    changed = True
+        self._pdom = pdom
+        return pdom
+
+    def control_deps(self, bb, transitive=True, stop=None):
+        """set of (switch block, successor taken) on which block bb is control dependent (Ferrante et al.);
+        `stop(block)` = do not look for the controllers of this controlling block (e.g. loop headers: what decides
+        whether there is another iteration is not a condition on the work done in one iteration)"""
+        pdom = self.postdominators()
+        out = set()
+        work = [bb]
+        seen = {bb}
+        while work:
+            b = work.pop()
+            for a in self.reachable_blocks(0):
+                ss = self.succs(a)
+                if len(set(ss)) < 2:
+                    continue
+                for x in set(ss):
+                    if b in pdom.get(x, ()) and not (b in pdom.get(a, ()) and b != a):
+                        if (a, x) not in out:
+                            out.add((a, x))
+                            if transitive and a not in seen and not (stop and stop(a)):
+                                seen.add(a)
+                                work.append(a)
+        return out
 
     def return_blocks(self):
         return [i for i, b in enumerate(self.blocks) if b["t"]["k"] == "return"]
